@@ -1,5 +1,6 @@
 //! unit: u07f
-//! properties: C07 C08 C11
+//! properties: C07 C08 C11 C02
+//! note: also run for C02: the code it constrains lies inside mechanisms those properties name (a change made there for their sake must meet these clauses too)
 //! note: what becomes of an on-chain event once it is buried deep enough (channelmonitor.rs block_confirmed, "Produce actionable events from on-chain events having reached their threshold"): a timed-out HTLC is reported upstream as failed (no preimage) and recorded as resolved; a matured output of ours is announced to the user as spendable, exactly that output, once; a confirmed HTLC spend is recorded as resolved with the preimage it revealed; a confirmed funding spend is recorded as final
 //! trusted: R15 (deep slice): block_confirmed: the match over one matured event, verbatim as a function of the entry (R2: taken with debug_assertions=false: the duplicate-resolution checks under #[cfg(debug_assertions)] are dropped; R6: `for funding in &self.pending_funding { .. }` is an index loop; R8: `discarded_funding.into_iter()` is passed as the vector); the monitor is a skeleton with the lists the arms push to; queue_discard_funding_event / promote_funding / no_further_updates_allowed / funding_txid are external_body without effect on those lists; which events have matured is decided by has_reached_confirmation_threshold (u11)
 //! trusted: env: enum OnchainEvent, struct OnchainEventEntry, struct IrrevocablyResolvedHTLC, struct HTLCUpdate, enum MonitorEvent are extracted over skeleton field types; Event is the one-variant skeleton SpendableOutputs
